@@ -115,40 +115,11 @@ package dispatcher
 //@   ensures [C16:iff_some_rule] result <==> rulesMatch(host, ips, rules)
 
 //@ spec
-//@ ghost var sends int
 //@ ghost var signedReq *http.Request
-//@ ghost var clockNow time.Time
 //@ ghost var lastSecret []byte
 //@ ghost var selectAt time.Time
-//@ ghost var macKey []byte
-//@ ghost var macData string
-//@ ufunc hmacSHA256(key []byte, data string) []byte
 
 //@ iface dispatcher.resolver.LookupIPAddr(self, ctx, host) (addrs, err)
-
-//@ extern net/http.NewRequestWithContext(ctx, method, url, body) (req, err)
-//@   ensures err == nil ==> req != nil && fresh(req) && req.URL == ext("net/url.Parse", url) && req.URL != nil && req.Header != nil && req.Method == method
-//@   ensures err != nil ==> req == nil
-
-//@ extern net/http.(*Client).Do(c, req) (resp, err)
-//@   modifies sends
-//@   ensures sends == old(sends) + 1
-//@   ensures err == nil ==> resp != nil
-
-//@ extern local:nowFn() (t)
-//@   modifies clockNow
-//@   ensures t != 0 && clockNow == t
-
-//@ extern crypto/hmac.New(h, key) (mac)
-//@   modifies macKey, macData
-//@   ensures macKey == key && macData == ""
-
-//@ iface hash.Hash.Write(self, p) (n, err)
-//@   modifies macData
-//@   ensures macData == concat(old(macData), p)
-
-//@ iface hash.Hash.Sum(self, b) (sum)
-//@   ensures b == nil ==> sum == hmacSHA256(macKey, macData)
 
 //@ func resolveHostIPs
 //@   modifies resolvedIPs
